@@ -17,11 +17,16 @@ TEXT = {
     "C04.guard-order": "approvedByGuards = deepForwardExitGuard && deepForwardEntryGuard on one GuardControl built from current and pending transitions; "
                        "approvedByEntryGuards = deepEntryGuard; S_::deep{Entry,Exit}Guard read _cancelled *before* any guard callback and return "
                        "cancelledBefore || !_cancelled",
+    "C04.forward": "every pending change is reached by the guard walk: C_::deepForwardEntryGuard = requested == INVALID ? wideForwardEntryGuard(active) : "
+                   "wideEntryGuard(requested); C_::deepForwardExitGuard = requested == INVALID ? wideForwardExitGuard(active) : wideExitGuard(active); "
+                   "O_::deepForward{Entry,Exit}Guard = requested bits set ? wideForward...(control, requested) : wideForward...(control) (all prongs when no bit "
+                   "is set); RegistryT::requestImmediate marks every orthogonal ancestor of the destination (requestedOrthoFork(forkId).set(prong)) and "
+                   "touches every composite ancestor (compoRequested or compoRemains) before stepping to the next ancestor",
     "C04.backup-covers": "every registry field applyRequest may write (except compoResumable: scheduling applies regardless) is re-established on the veto arm "
                          "(by restore(backup) or an explicit statement); backup() captures what restore() writes",
     "C04.bounded": "the round loops are `for (s = 0; s < SUBSTITUTION_LIMIT && requests.count(); ++s)` and s is written nowhere else",
 }
-MIN_INSTANCES = {"C04.round": 2, "C04.guard-order": 4, "C04.backup-covers": 2, "C04.bounded": 2}
+MIN_INSTANCES = {"C04.forward": 4, "C04.round": 2, "C04.guard-order": 4, "C04.backup-covers": 2, "C04.bounded": 2}
 
 REG_STATE = ("compoRequested", "orthoRequested", "compoActive", "compoResumable", "compoRemains")
 
@@ -88,7 +93,86 @@ RE_PROCESS = re.compile(r"^BK " + ROUND + r"(?:L- |L\+ R- )(?:C\+ D |C- )CR$")
 RE_INITIAL = re.compile(r"^(?:TC )?Q g (?:G[+-] )?BK " + ROUND + r"(?:L- |L\+ R- )D CR$")
 
 
+FORWARD_WANT = {
+    ("C_", "deepForwardEntryGuard"): {("inv", "wideForwardEntryGuard", "compoActive"), ("req", "wideEntryGuard", "compoRequested")},
+    ("C_", "deepForwardExitGuard"): {("inv", "wideForwardExitGuard", "compoActive"), ("req", "wideExitGuard", "compoActive")},
+    ("O_", "deepForwardEntryGuard"): {("bits", "wideForwardEntryGuard", "requested"), ("nobits", "wideForwardEntryGuard", "-")},
+    ("O_", "deepForwardExitGuard"): {("bits", "wideForwardExitGuard", "requested"), ("nobits", "wideForwardExitGuard", "-")},
+}
+
+
+def check_forward(ctx, F):
+    for (cls, name), want in FORWARD_WANT.items():
+        for fid, b in insts(F, cls, {name}):
+            site = "%s::%s" % (cls, name)
+            shapes = set()
+            for p in paths_of(ctx, F, fid):
+                cond = "?"
+                calls = []
+                for ev in p:
+                    if ev[0] == "assume":
+                        m = re.search(r"compoRequested[^=!]*(==|!=)#(255|65535)\)?$", ev[2])
+                        if m:
+                            cond = "inv" if (m.group(1) == "==") == bool(ev[3]) else "req"
+                        elif "operator bool" in ev[2] and "requested" in ev[2]:
+                            cond = "bits" if ev[3] else "nobits"
+                    elif ev[0] == "call" and ev[2] is not None and F.fn(ev[2]).get("cls") in ("CS_", "OS_") and "Guard" in F.fn(ev[2])["name"]:
+                        a = (ev[4] or [None, None])
+                        arg = a[1] if len(a) > 1 else "-"
+                        m = re.search(r"(compoActive|compoRequested|requested)", arg or "")
+                        calls.append((F.fn(ev[2])["name"], m.group(1) if m else arg))
+                if len(calls) != 1:
+                    shapes.add((cond, "calls=%d" % len(calls), "-"))
+                else:
+                    shapes.add((cond,) + calls[0])
+            ctx.instance("C04.forward", site, {"function": site, "loc": F.floc(fid), "shapes": sorted(shapes)})
+            if shapes != want:
+                ctx.violation("C04.forward", site, "%s (%s)" % (site, F.floc(fid)),
+                              "%s forwards the guard walk as %s, expected %s: a pending change in a sub-region can be committed without its guards" % (
+                                  site, sorted(shapes), sorted(want)), {})
+    # the request walk marks every ancestor fork
+    for fid, b in insts(F, "RegistryT", {"requestImmediate"}):
+        spec = F.spec(b["tid"])
+        site = "RegistryT<%s>::requestImmediate" % spec
+        bad = None
+        n = 0
+        for p in sym_paths(F, fid, 2):
+            ctx.paths += 1
+            pending = None
+            for ev in p:
+                if ev[0] == "assume" and re.search(r"forkId[<>]#0\)?$", ev[2]):
+                    lt = "forkId<#0" in ev[2]
+                    if lt:
+                        # forkId < 0: orthogonal ancestor; forkId neither > 0 nor < 0 cannot happen (forkParent of a real fork; HFSM2_BREAK arm)
+                        pending = "ortho" if ev[3] else None
+                    elif spec == "general":
+                        # forkId > 0: composite ancestor; not composite means orthogonal, whether or not the code goes on to test `< 0`
+                        pending = "compo" if ev[3] else "ortho"
+                elif ev[0] == "call" and ev[2] is not None:
+                    nme = F.fn(ev[2])["name"]
+                    if nme == "set" and "requestedOrthoFork" in (ev[3] or "") and pending == "ortho":
+                        pending = None
+                        n += 1
+                    elif nme == "set" and (ev[3] or "").endswith("compoRemains") and pending == "compo":
+                        pending = None
+                    elif nme == "forkParent":
+                        if pending:
+                            bad = pending
+                        pending = None
+                elif ev[0] == "write" and "compoRequested" in ev[2] and pending == "compo":
+                    pending = None
+            if pending:
+                bad = bad or pending
+        ctx.instance("C04.forward", site, {"function": site, "loc": F.floc(fid), "orthogonal_marks_seen": n})
+        if bad:
+            ctx.violation("C04.forward", site, "%s (%s)" % (site, F.floc(fid)),
+                          "on some path the walk steps over %s without marking it: guards are forwarded only into marked prongs of an orthogonal region once any "
+                          "bit is set, so a change pending below an unmarked prong is committed unguarded" % (
+                              "an orthogonal ancestor (no requestedOrthoFork(...).set)" if bad == "ortho" else "a composite ancestor (neither compoRequested nor compoRemains)"), {})
+
+
 def check(ctx, F):
+    check_forward(ctx, F)
     E = Effects(F)
     for fid, b in insts(F, "R_", {"processTransitions", "initialEnter"}):
         site = "R_::" + b["name"]
